@@ -66,6 +66,7 @@ CONTROLS = {
         ("closing vertex compared with the first vertex of the first path", E, "if (!is_open && prev_v->pt == v0->pt)", "if (!is_open && prev_v->pt == vertices->pt)", "ADD.closing-vertex"),
     ],
     "C06": [
+        ("mitered vertex differs in the USINGZ build only", O, "#ifdef USINGZ\n    path_out.emplace_back(\n\t\tpath[j].x + (norms[k].x + norms[j].x) * q,\n\t\tpath[j].y + (norms[k].y + norms[j].y) * q,\n        path[j].z);", "#ifdef USINGZ\n    path_out.emplace_back(\n\t\tpath[j].x + (norms[k].x + norms[j].x) * q,\n\t\tpath[j].y + (norms[k].y + norms[k].y) * q,\n        path[j].z);", "ZERASE"),
         ("miter threshold derived once in the constructor only", O, "\t\ttemp_lim_ = (miter_limit_ <= 1) ?\n", "\t\tif (temp_lim_ == 0) temp_lim_ = (miter_limit_ <= 1) ?\n", "TARGET.set"),
         ("clean-up union of reversed paths with the wrong fill rule (tree output)", O, "\t\t\tc.Execute(ClipType::Union, FillRule::Negative, *solution_tree);",
          "\t\t\tc.Execute(ClipType::Union, FillRule::Positive, *solution_tree);", "OFFSET.cleanup"),
@@ -80,12 +81,14 @@ CONTROLS = {
         ("sum computed with the operands exchanged", H + "clipper.minkowski.h", "      if (patLen == 0 || pathLen == 0) return Paths64();\n", "      if (patLen == 0 || pathLen == 0) return Paths64();\n      if (isSum && pathLen > patLen) return Minkowski(path, pattern, true, isClosed);\n", "MINK.roles"),
     ],
     "C07": [
+        ("mitered vertex differs in the USINGZ build only", O, "#ifdef USINGZ\n    path_out.emplace_back(\n\t\tpath[j].x + (norms[k].x + norms[j].x) * q,\n\t\tpath[j].y + (norms[k].y + norms[j].y) * q,\n        path[j].z);", "#ifdef USINGZ\n    path_out.emplace_back(\n\t\tpath[j].x + (norms[k].x + norms[j].x) * q,\n\t\tpath[j].y + (norms[k].y + norms[k].y) * q,\n        path[j].z);", "ZERASE"),
         ("delta used without abs for open paths", O, "group_delta_ = std::abs(delta_);// *0.5;", "group_delta_ = delta_;", "DELTA.abs-only"),
         ("end cap differs from start cap", O, "DoBevel(path, highI, highI);", "DoSquare(path, highI, highI);", "CAP.table"),
         ("end type override leaks into later paths", O, "\t\tend_type_ = group.end_type; // the override below is for this path only\n", "", "LOOP"),
         ("closing vertex stripped for open end types too", O, "\tfor (Path64& p: paths_in)\n\t  StripDuplicates(p, is_joined);", "\tfor (Path64& p: paths_in)\n\t  StripDuplicates(p, true);", "GROUP.strip-closed"),
     ],
     "C08": [
+        ("from Left, a vertex above the rectangle and right of it is classed Top", R, "      else if (path[i].x >= rect_.right) loc = Location::Right;\n      else if (path[i].y <= rect_.top) loc = Location::Top;\n      else if (path[i].y >= rect_.bottom) loc = Location::Bottom;\n      else loc = Location::Inside;\n      break;\n\n    case Location::Top:", "      else if (path[i].y <= rect_.top) loc = Location::Top;\n      else if (path[i].x >= rect_.right) loc = Location::Right;\n      else if (path[i].y >= rect_.bottom) loc = Location::Bottom;\n      else loc = Location::Inside;\n      break;\n\n    case Location::Top:", "T.next-location"),
         ("clockwise step counted with a signed remainder", R, "        case -3: result += 1; break;", "        case -3: break;", "T.side-algebra"),
         ("Contains made strict on the right", H + "clipper.core.h", "      return rec.left >= left && rec.right <= right &&",
          "      return rec.left >= left && rec.right < right &&", "T.rect"),
@@ -154,12 +157,14 @@ CONTROLS = {
          "\treturn Point64(pt.x + norm.x * delta + (pt.z ? 1 : 0), pt.y + norm.y * delta, pt.z);", "ZERASE"),
     ],
     "C16": [
+        ("TrimCollinear(PathD) hands short paths back without the round trip", H + "clipper.h", "    if (error_code) return PathD();\n    const double scale = std::pow(10, precision);\n    Path64 p = ScalePath<int64_t, double>(path, scale, error_code);", "    if (error_code) return PathD();\n    if (path.size() < 3) return path;\n    const double scale = std::pow(10, precision);\n    Path64 p = ScalePath<int64_t, double>(path, scale, error_code);", "SCALE.wrapper"),
         ("delta not scaled in InflatePaths(PathsD)", H + "clipper.h", "    clip_offset.Execute(delta * scale, solution);\n    return ScalePaths<double, int64_t>(solution, 1 / scale, error_code);",
          "    clip_offset.Execute(delta, solution);\n    return ScalePaths<double, int64_t>(solution, 1 / scale, error_code);", "SCALE.wrapper"),
         ("BuildPathD loses the open-path exemption again", E, "    if (!isOpen && path.size() == 3 && IsVerySmallTriangle(*op2)) return false;\n    return true;",
          "    if (path.size() == 3 && IsVerySmallTriangle(*op2)) return false;\n    return true;", "SIBLING.64-D"),
     ],
     "C17": [
+        ("tree serialiser takes the write cursor by value", H + "clipper.export.h", "static void CreateCPolyPathD(const PolyPathD* pp, double*& v)", "static void CreateCPolyPathD(const PolyPathD* pp, double* v)", "LAYOUT.cursor"),
         ("export converter truncates instead of rounding", H + "clipper.export.h", "    {\n      double x = *v++ * scale;\n      double y = *v++ * scale;\n#ifdef USINGZ\n      z_type z = Reinterpret<z_type>(*v++);\n      path.emplace_back(x, y, z);", "    {\n      int64_t x = static_cast<int64_t>(*v++ * scale);\n      int64_t y = static_cast<int64_t>(*v++ * scale);\n#ifdef USINGZ\n      z_type z = Reinterpret<z_type>(*v++);\n      path.emplace_back(x, y, z);", "ROUND"),
         ("Z written by value conversion, read by bit copy", H + "clipper.export.h", "      *v++ = pt.x * scale;\n      *v++ = pt.y * scale;\n#ifdef USINGZ\n      *v++ = Reinterpret<double>(pt.z);",
          "      *v++ = pt.x * scale;\n      *v++ = pt.y * scale;\n#ifdef USINGZ\n      *v++ = static_cast<double>(pt.z);", "LAYOUT.z-codec"),
